@@ -53,7 +53,16 @@ fn stereo_dc(l: f32, rr: f32) -> kira::sound::static_sound::StaticSoundData {
 
 /// renders the scene until steady and returns the last output frame (L, R)
 fn render(g: &Geo) -> Result<(f32, f32), String> {
-	let mut rig = Rig::simple(SR, IBS);
+	// a static scene gives the same steady output however the device cuts it up: every other rendering uses an internal
+	// buffer of one frame, or callbacks whose last chunk is a single frame (the frame that is returned)
+	static MODE: std::sync::atomic::AtomicU64 = std::sync::atomic::AtomicU64::new(0);
+	let mode = MODE.fetch_add(1, std::sync::atomic::Ordering::Relaxed) % 4;
+	let (ibs, cb) = match mode {
+		2 => (1, 5),
+		3 => (IBS, IBS * 2 + 1),
+		_ => (IBS, IBS * 2),
+	};
+	let mut rig = Rig::simple(SR, ibs);
 	let l = rig.mgr.add_listener(g.lp, g.lo).map_err(|_| "listener")?;
 	let mut t = rig
 		.mgr
@@ -62,7 +71,7 @@ fn render(g: &Geo) -> Result<(f32, f32), String> {
 	let _s = t.play(stereo_dc(g.src.0, g.src.1)).map_err(|_| "play")?;
 	let mut last = (0.0, 0.0);
 	for _ in 0..3 {
-		let b = rig.callback(IBS * 2);
+		let b = rig.callback(cb);
 		last = (b[b.len() - 2], b[b.len() - 1]);
 		if b.iter().any(|x| !x.is_finite()) {
 			return Err(format!("non-finite output for {:?}", g));
@@ -306,6 +315,8 @@ fn history_case(r: &mut Rng, stats: &mut Stats) -> Result<u64, String> {
 			let d = r.f32_in(0.0, 30.0);
 			let p = lp + rand_unit(r) * d;
 			let (i0, i1) = (r.f64_in(0.0, 10.0), r.f64_in(12.0, 40.0));
+			// (one mapping in four has a descending input range: far -> near)
+			let (i0, i1) = if r.chance(0.25) { (i1, i0) } else { (i0, i1) };
 			let (o0, o1) = (r.f32_in(-30.0, -1.0), r.f32_in(-30.0, 0.0));
 			let easing = gen_easing(r);
 			let map = Mapping { input_range: (i0, i1), output_range: (Decibels(o0), Decibels(o1)), easing };
